@@ -96,14 +96,25 @@ pub fn run(
                 frontier_model: Arc::new(yens_frontier),
                 termination_model: si.termination_model.clone(),
             };
-            let spur_result = underlying.run_vertex_oriented(
+            let spur_search = underlying.run_vertex_oriented(
                 spur_vertex_id,
                 Some(query.target),
                 query.user_query,
                 &crate::algorithm::search::direction::Direction::Forward,
                 &yens_si,
-            )?;
+            );
             iterations += 1;
+            let spur_result = match spur_search {
+                Ok(spur_result) => spur_result,
+                // a limit of the termination model stops the query
+                Err(e @ SearchError::TerminationModelFailure { .. }) => return Err(e),
+                // any other failure (typically: with these edges cut the target cannot be reached
+                // from this spur vertex) only means that this spur index has no candidate to offer
+                Err(e) => {
+                    log::debug!("yens spur search {} failed: {}", spur_idx, e);
+                    continue;
+                }
+            };
 
             let spur_path = get_first_route(&spur_result)?;
             let candidate_path = root_path
